@@ -74,12 +74,15 @@ class MemSocket(object):
         self.n_send = 0
         self.blocking_sendall = True
         self.rx_total = 0
+        self.activity = 0      # bytes moved or schedule-injected events (progress indicator)
 
     # -- socket API used by tlslite
     def recv(self, n):
         self.n_recv += 1
+        asked = n
         act = self.schedule.on_recv(self, n) if self.schedule else None
         if act is not None:
+            self.activity += 1
             if act[0] == "wb":
                 self._ev("recv", n, "WB")
                 raise would_block()
@@ -93,14 +96,15 @@ class MemSocket(object):
                 n = max(1, min(n, act[1]))
         if not self.rx.buf:
             if self.rx.eof:
-                self._ev("recv", n, "EOF")
+                self._ev("recv", asked, "EOF")
                 return b""
-            self._ev("recv", n, "WB")
+            self._ev("recv", asked, "WB")
             raise would_block()
         out = bytes(self.rx.buf[:n])
         del self.rx.buf[:n]
         self.rx_total += len(out)
-        self._ev("recv", n, len(out))
+        self.activity += 1
+        self._ev("recv", asked, len(out))
         return out
 
     def send(self, data):
@@ -110,6 +114,7 @@ class MemSocket(object):
         act = self.schedule.on_send(self, data) if self.schedule else None
         k = len(data)
         if act is not None:
+            self.activity += 1
             if act[0] == "wb":
                 self._ev("send", len(data), "WB")
                 raise would_block()
@@ -119,6 +124,7 @@ class MemSocket(object):
             if act[0] == "max":
                 k = max(1, min(k, act[1]))
         self.tx.push(bytes(data[:k]))
+        self.activity += 1
         self._ev("send", len(data), k)
         return k
 
